@@ -187,6 +187,24 @@ mod verif_c05 {
     // {b, zq}: two undeclared fields, the first one is reported
     derive_shape!(derive_shape_two_unknown, [2, 1], |r, _| r.is_err() && unknown_logged(b"b"), |r, _| matches!(r, Ok(None)));
 
+    // an object type that declares no field at all (serde-derive passes an empty `fields` slice): every key is undeclared
+    static NONE_DECLARED: [&str; 0] = [];
+    #[kani::proof]
+    #[kani::unwind(6)]
+    fn derive_shape_no_declared_fields() {
+        let vals: [bool; 2] = kani::any();
+        let form: [u8; 2] = kani::any();
+        kani::assume(form[0] < 3 && form[1] < 3);
+        reset();
+        let r = <UnknownFieldsBehavior<Plain_> as Behavior>::deserialize_struct(Script { keys: [2, 1], form, vals }, "S", &NONE_DECLARED, SV);
+        assert!(r.is_err());
+        assert!(n() == 1 && at(0) == Ev::UnknownField(1, b'b', 0, 0));
+        reset();
+        let r2 = <Plain_ as Behavior>::deserialize_struct(Script { keys: [2, 1], form, vals }, "S", &NONE_DECLARED, SV);
+        assert!(n() == 0 && matches!(r2, Ok(None)));
+        kani::cover!(form[0] == 1 && form[1] == 2);
+    }
+
     // the struct hook routes through the inner behaviour's deserialize_struct with the same name and fields
     #[kani::proof]
     fn struct_hook_goes_through_inner_behavior() {
